@@ -722,6 +722,8 @@ SequenceOfLabelsToDomainName(const uint8_t *buf, size_t buf_size, uint8_t *name,
 	cur_pos = buf;
 	max_pos = (cur_pos + buf_size);
 	for (;;) {// перебираем все куски текста
+		if (cur_pos >= max_pos)
+			return (EBADMSG); /* Out of buf range. */
 		label = (*cur_pos);
 		if ((label & SEQ_LABEL_CTRL_MASK) != SEQ_LABEL_CTRL_LEN)
 			return (EOPNOTSUPP);// unsupported label type (possible ends)
@@ -731,7 +733,7 @@ SequenceOfLabelsToDomainName(const uint8_t *buf, size_t buf_size, uint8_t *name,
 		if ((cur_pos + label) > max_pos)
 			return (EBADMSG); /* Out of buf range. */
 		if (0 == label) { // null label = end of name, ALL DONE!!!
-			if (0 != (cur_pos - buf)) { // clear last dot
+			if (1 < (cur_pos - buf)) { // clear last dot
 				name --;
 			}
 			(*name) = 0; // set zero at the end
@@ -741,6 +743,8 @@ SequenceOfLabelsToDomainName(const uint8_t *buf, size_t buf_size, uint8_t *name,
 			return (0);
 		}
 
+		if (((size_t)(cur_pos - buf) + label) > name_buf_size)
+			return (EOVERFLOW); /* No room for label and dot. */
 		memcpy(name, cur_pos, label);
 		name += label;
 		(*name) = '.';
